@@ -204,6 +204,13 @@ static void *task_main(void *arg) {
     for (size_t i = 0; i < ops.size(); i++) {
         yield_point("op");
         exec_op(*S->W, ops[i], me.base_index + (int) i);
+        for (auto &kv : S->locks)
+            if (kv.second.writer == me.id || kv.second.readers.count(me.id)) {
+                S->W->viol("C18 C17", "lock/held-after-return", "a library lock is still held by the calling thread after the public call returned");
+                if (kv.second.writer == me.id) kv.second.writer = -1;
+                kv.second.readers.erase(me.id);
+                for (auto *t : S->tasks) if (t->st == Task::BLOCKED && t->wait_lock == kv.first) t->st = Task::READY;
+            }
     }
     me.st = Task::DONE;
     S->W->trace.add("done", me.id);
